@@ -606,6 +606,26 @@ func c08SeqRun(c *c08SeqCase, tmp string) (f *vh.Failure) {
 				// touch it so that it enters the read cache
 				o.Get(robust.Id{Id: id})
 			}
+			// the decoded-batch cache has been filled and evicted from several times: every id must
+			// still resolve to its own batch, and every position to its own successor
+			ids := make([]uint64, 0, len(st))
+			for id := range st {
+				ids = append(ids, id)
+			}
+			sort.Slice(ids, func(a, b int) bool { return ids[a] < ids[b] })
+			for pass := 0; pass < 2; pass++ {
+				for j, id := range ids {
+					got, ok := o.Get(robust.Id{Id: id})
+					if !ok || !sameBatch(got, id, st[id]) {
+						return vh.Failf("wrong-get-sequential", "op #%d (sweep after %d batches were read, pass %d): Get(%d) = %s, %v; model: %d replies", k, op.N, pass, id, batchIDs(got), ok, st[id])
+					}
+					if j+1 < len(ids) {
+						if nx := o.GetNext(context.Background(), robust.Id{Id: id}); !sameBatch(nx, ids[j+1], st[ids[j+1]]) {
+							return vh.Failf("wrong-successor-sequential", "op #%d (sweep, pass %d): GetNext(%d) = %s, want batch %d", k, pass, id, batchIDs(nx), ids[j+1])
+						}
+					}
+				}
+			}
 		case "delete":
 			if err := o.Delete(robust.Id{Id: op.Id}); err != nil {
 				return vh.Failf("delete-error", "op #%d: %v", k, err)
